@@ -397,11 +397,11 @@ def bounded(ctx):
                     (_cfg("plain", 10), OPS_SMALL, 4), (_cfg("plain", 0), OPS_FULL, 3), (_cfg("section", 10), OPS_SMALL, 4),
                     (_cfg("section", 3, "msg"), OPS_FULL, 3), (_cfg("quiet", 10), OPS_SMALL, 3), (_cfg("ansi", 1, "bar", 1), OPS_SMALL, 3)]
         else:
-            plan = [(_cfg("ansi", 10), OPS_SMALL, 6), (_cfg("ansi", 0), OPS_SMALL, 6), (_cfg("ansi", 10), OPS_FULL, 5),
-                    (_cfg("ansi", 3, "msg"), OPS_FULL, 5), (_cfg("ansi", 0, "msg"), OPS_FULL, 4),
-                    (_cfg("plain", 10), OPS_SMALL, 6), (_cfg("plain", 0), OPS_SMALL, 6), (_cfg("plain", 3, "msg"), OPS_FULL, 5),
-                    (_cfg("section", 10), OPS_SMALL, 6), (_cfg("section", 0), OPS_FULL, 4), (_cfg("section", 3, "msg"), OPS_FULL, 5),
-                    (_cfg("quiet", 10), OPS_FULL, 4), (_cfg("ansi", 1, "bar", 1), OPS_SMALL, 5), (_cfg("ansi", 50, "default", 28, 0.0, 2), OPS_SMALL, 5),
+            plan = [(_cfg("ansi", 10), OPS_SMALL, 6), (_cfg("plain", 10), OPS_SMALL, 6), (_cfg("section", 10), OPS_SMALL, 6),
+                    (_cfg("ansi", 0), OPS_SMALL, 5), (_cfg("plain", 0), OPS_SMALL, 5), (_cfg("ansi", 10), OPS_FULL, 5),
+                    (_cfg("ansi", 3, "msg"), OPS_FULL, 5), (_cfg("ansi", 0, "msg"), OPS_FULL, 4), (_cfg("plain", 3, "msg"), OPS_FULL, 4),
+                    (_cfg("section", 0), OPS_FULL, 4), (_cfg("section", 3, "msg"), OPS_FULL, 4), (_cfg("quiet", 10), OPS_FULL, 4),
+                    (_cfg("ansi", 1, "bar", 1), OPS_SMALL, 5), (_cfg("ansi", 50, "default", 28, 0.0, 2), OPS_SMALL, 5),
                     (_cfg("plain", 200, "default", 40, 0.0, 1), OPS_SMALL, 5)]
         ctx.check("explore_ops", "all call sequences up to length L, throttle disabled, for the configurations (kind,max,format,L): " + ", ".join(
             "(%s,%d,%s,%d ops,L=%d)" % (c["kind"], c["max"], c["fmt"], len(a), L) for c, a, L in plan))
@@ -414,7 +414,7 @@ def bounded(ctx):
         # ---- 3. timing
         timed = [(dt, op) for dt in DTS for op in OPS_TIMING]
         Lt = 3 if quick else 4
-        plan = [(_cfg("ansi", 10, mn=0.1), Lt), (_cfg("plain", 10, mn=0.1), Lt)]
+        plan = [(_cfg("ansi", 10, mn=0.1), Lt), (_cfg("plain", 10, mn=0.1), 3)]
         if not quick:
             plan += [(_cfg("ansi", 0, mn=0.1), 3), (_cfg("section", 3, mn=0.1), 3), (_cfg("plain", 0, mn=0.1), 3), (_cfg("ansi", 200, mn=0.5), 3)]
         ctx.check("explore_timing", "all sequences of (clock advance in {0,10,50,200,2000} ms, call in {start, advance(1), advance(3), set_progress(max), display, finish}) "
